@@ -79,7 +79,7 @@ MARKERS = ['EOF', 'E-O_F', '0', '-', 'eof', 'X1', 'MARKER_']
 
 
 def _text(atoms, min_size, max_size):
-    return st.lists(st.sampled_from(atoms), min_size=min_size, max_size=max_size).map(''.join)
+    return st.lists(st.sampled_from(atoms), min_size=min_size, max_size=max_size).map(''.join)  # noqa
 
 
 def _unterminated(frs_and_q):
@@ -90,7 +90,7 @@ def _unterminated(frs_and_q):
 class _Strategies:
     """The item strategies for a given tuple of extra (Unicode white-space) characters."""
 
-    def __init__(self, u):
+    def __init__(self, u, big=False):
         ux = []
         for c in u:
             ux += [c, c, c + 'a', 'a' + c, 'a' + c + 'b', c + c]
@@ -114,7 +114,7 @@ class _Strategies:
                         [['n', c + ':>']], [['n', ':>' + c]], [['n', '\\' + c]], [['n', c + '\\']],
                         [['n', c + '@[S]@' + c]], [['n', 'a' + c], ['us', 'b']], [['n', c + '-x']]]
         self.token = st.one_of(
-            st.lists(frag, min_size=1, max_size=4),
+            st.lists(frag, min_size=1, max_size=7 if big else 4),
             st.lists(frag, min_size=2, max_size=3),
             st.sampled_from(special),
         )
@@ -167,8 +167,8 @@ _SPECIAL_TOKENS = (
 
 
 @functools.lru_cache(maxsize=None)
-def _strategies(u) -> _Strategies:
-    return _Strategies(u)
+def _strategies(u, big=False) -> _Strategies:
+    return _Strategies(u, big)
 
 
 _LEADS = ['dir d1', '', '# comment', 'dir d2', '  ', "def string Q = 'it''s'"]
@@ -182,14 +182,17 @@ _uws_some = st.one_of(
     st.sampled_from(list(UWS_ALL)).map(lambda c: (c,)),
     st.lists(st.sampled_from(UWS_COMMON), min_size=2, max_size=2, unique=True).map(tuple),
 )
+_uws_some_big = st.one_of(
+    _uws_some, st.lists(st.sampled_from(list(UWS_ALL)), min_size=1, max_size=3, unique=True).map(tuple))
 _uws = st.one_of(st.just(()), _uws_some)
 
 
 @st.composite
 def cli_case(draw, tier='quick', uws=False):
     host = draw(st.sampled_from(_HOST_WEIGHTED))
-    u = draw(_uws_some) if uws else ()
-    S = _strategies(u)
+    big = tier != 'quick'
+    u = draw(_uws_some_big if big else _uws_some) if uws else ()
+    S = _strategies(u, big)
     lead = draw(st.lists(st.sampled_from(_LEADS), min_size=0, max_size=3, unique=True))
     pre = draw(st.sampled_from(S.pre))
     tail = draw(st.sampled_from(S.tail))
@@ -203,7 +206,7 @@ def cli_case(draw, tier='quick', uws=False):
         seps = []
         nxt = draw(st.sampled_from(_NEXT_STRING))
     else:
-        n = draw(st.integers(0, 4))
+        n = draw(st.integers(0, 7 if big else 4))
         items = [draw(S.tok_item) for _ in range(n)]
         if host in RICH_LIST_HOSTS:
             k = draw(st.sampled_from(list(range(10))))
@@ -486,10 +489,31 @@ def _structured_source(draw, u):
     return ''.join(out)
 
 
-def tok_case(tier='quick'):
-    def for_u(u):
-        src = st.one_of(_structured_source(u), _structured_source(u), _raw_text(u))
-        ops = st.lists(st.sampled_from([0, 0, 0, 0, 1, 2]), min_size=0, max_size=10)
-        return st.fixed_dictionaries({'src': src, 'ops': ops})
+FUZZ_ALPHABET = ['a', 'b', ' ', ' ', '\t', '\n', '\n', "'", '"', '@[', ']@', 'S', '_', '#', '\\', '=', ':', '|', '(', ')',
+                 '{', '}', '!', '&&', '||', '-', '<<', 'EOF', ':>', 'é', '[', ']', '@', '<', '>', '&', '\r', '0',
+                 '\xa0', '\x0c', '\u2028', '\x1f', '\u3000', '\x85', '\x0b', '\xa0']
 
-    return _uws.flatmap(for_u)
+
+def decode_tok(data: bytes):
+    """bytes -> tokenizer case: the first byte gives the number of operations, then the operations, the rest
+    selects source fragments from a fixed alphabet (structured decoding, so that coverage feedback works on
+    the syntax and not on UTF-8 validity)"""
+    if not data:
+        return {'src': '', 'ops': []}
+    n_ops = data[0] % 9
+    ops = [(0, 0, 0, 0, 1, 2)[b % 6] for b in data[1:1 + n_ops]]
+    src = ''.join(FUZZ_ALPHABET[b % len(FUZZ_ALPHABET)] for b in data[1 + n_ops:])
+    return {'src': src, 'ops': ops}
+
+
+@st.composite
+def _structured_tok_case(draw):
+    u = draw(_uws)
+    src = draw(st.one_of(_structured_source(u), _structured_source(u), _raw_text(u)))
+    ops = draw(st.lists(st.sampled_from([0, 0, 0, 0, 1, 2]), min_size=0, max_size=10))
+    return {'src': src, 'ops': ops}
+
+
+def tok_case(tier='quick'):
+    """Half of the cases are built from tokens (expensive to draw), half are decoded from random bytes (cheap)."""
+    return st.one_of(_structured_tok_case(), st.binary(min_size=0, max_size=40).map(decode_tok))
